@@ -130,6 +130,12 @@ func floors(r *ev.Run) {
 	f("call.tvote.accepted", 50, 1500)
 	f("call.revokevote.accepted", 10, 300)
 	f("call.revokenom.accepted", 10, 300)
+	f("nominate.accepted.cosigned-candidate", 50, 1500)
+	f("call.rawlock.accepted", 300, 9000)
+	f("call.rawunlock.accepted", 200, 6000)
+	f("rawunlock.attempted.locked+1", 50, 1500)
+	f("transfer.accepted.self", 300, 9000)
+	f("transfer.accepted.to-lock-holder", 300, 9000)
 	f("directlock.refused.user-transaction", 100, 3000)
 	f("directlock.refused.via-"+proxyName, 20, 600)
 	f("call.checkvote.refused", 20, 600)
